@@ -86,7 +86,36 @@ def from_digraph(p, rng):
     return proj_graph(g, "dg")
 
 
+def dense_knot(rng):
+    """7-9 gates with dense mutual feedback (overlapping, knotted cycles); too wide for the all-bits judgement, so these
+    cases are recorded only when the call raises or (1 in 25) for the structural clauses."""
+    import networkx as nx
+
+    n = rng.choice([7, 7, 8, 9])
+    g = nx.DiGraph()
+    order = list(range(n))
+    rng.shuffle(order)
+    for i in order:
+        g.add_node("x%d" % i, type="input", output=False)
+    for i in order:
+        g.add_node("g%d" % i, type=rng.choice(["and", "or", "nand", "nor", "xor"]), output=rng.random() < 0.4)
+        g.add_edge("x%d" % i, "g%d" % i)
+    for i in range(n):
+        for j in range(n):
+            if i != j and rng.random() < 0.3:
+                g.add_edge("g%d" % i, "g%d" % j)
+    if nx.is_directed_acyclic_graph(g):
+        return None
+    if not any(g.nodes[x]["output"] for x in g):
+        g.nodes["g0"]["output"] = True
+    return proj_graph(g, "knot")
+
+
 def cases(ctx):
+    for j in range(4000 if ctx.quick else 30000):
+        p = dense_knot(ctx.rng("C18knot", j))
+        if p is not None:
+            yield {"op": "acyclic_unroll_cyclic", "c": p, "src": "KNOT", "sparse": j % 25 != 0}
     rng = ctx.rng("C18")
     dg4 = ctx.family("DG4")
     k = 0
@@ -118,6 +147,9 @@ def run_case(case, ctx):
         r = cg.tx.acyclic_unroll(c)
     except Exception as e:
         exc = type(e).__name__
+    if case.get("sparse") and not exc:
+        ctx.count("knot_cases_without_exception_not_recorded")
+        return []
     return {"kind": "acyclic_unroll_cyclic", "c": proj(c), "r": proj(r) if r is not None else {}, "exc": exc, "nontrivial": True}
 
 
